@@ -345,3 +345,6 @@ def run(ck):
     rule_increase_width(ck)
     rule_none(ck)
     rule_broadcast(ck)
+    # "the pilot applied to each station is the scheduled value": what update_pilots sends is latched by every EVSE, occupied or not
+    from .c13 import rule_set_pilot_table
+    rule_set_pilot_table(ck, rid="C04.R9")
